@@ -52,21 +52,25 @@ def _is_memsize(e):
 def run(ctx):
     prog = ctx.prog
     prog.adt(ENTRY)
+    MACFN, VERFN = L.wal_roles(prog)        # found by role, so renaming / un-methoding the two private routines changes nothing
+    VSHORT = VERFN.rsplit('::', 1)[-1]
     bodies = list(prog.bodies.in_files([FILE]))
     for b in bodies:
         ctx.touch(b, len(b.calls()))
 
     # ------------------------------------------------------------------ 1. verify gate in replay
-    replay = [b for b in bodies if b.root == MGRT + '::replay_wal_file']
-    if not replay:
+    replay0 = [b for b in bodies if b.root == MGRT + '::replay_wal_file']
+    if not replay0:
         raise F.AnchorMissing(MGRT + '::replay_wal_file')
+    # the replay routine with its private helpers spliced in (a step / decode helper changes nothing)
+    replay = [prog.inl(b.id, keep=re.escape(VERFN) + '$') for b in replay0 if b.is_coroutine] or [prog.inl(replay0[0].id, keep=re.escape(VERFN) + '$')]
     n = 0
     for b in replay:
         for g in L.guards(b):
             if g.mode != 'write' or g.lock_field() != 'state':
                 continue
             conds = F.dominating_conds(b, g.acq.bb)
-            ver = [c for c in conds if c.kind == 'bool' and c.truth and c.expr.k == 'call' and c.expr.a.endswith('::verify_wal_entry')]
+            ver = [c for c in conds if c.kind == 'bool' and c.truth and c.expr.k == 'call' and c.expr.a == VERFN]
             n += 1
             ok = bool(ver)
             # the record checked is the record applied: state mutation args mention the same entry local
@@ -102,21 +106,34 @@ def run(ctx):
                 continue
             seen_sw.add(sw)
             nvf += 1
-            ver = [cd for cd in F.dominating_conds(b, sw) if cd.kind == 'bool' and cd.truth and cd.expr.k == 'call' and cd.expr.a.endswith('::verify_wal_entry')]
+            ver = [cd for cd in F.dominating_conds(b, sw) if cd.kind == 'bool' and cd.truth and cd.expr.k == 'call' and cd.expr.a == VERFN]
             ctx.ob('VERIFY-FIRST', 'branch-on:%s#%d@%s' % ('+'.join(flds), sum(1 for o in ctx.obls if o.rule == 'VERIFY-FIRST'), b.id), bool(ver),
                    b.where(b.line_of_block(sw)),
                    'branch on record field(s) %s %s' % (', '.join(flds), 'after the record was verified' if ver else
                                                          'BEFORE verify_wal_entry: an unverified field decides what recovery does with the record'), entry=b.root)
     ctx.floor('VERIFY-FIRST', 3)
     # verify_wal_entry accepts only on equality with a recomputed tag
-    vb = prog.body(MGRT + '::verify_wal_entry')
+    vb = prog.body(VERFN)
     eq = vb.calls(r'PartialEq.*>::eq$')
-    calc = vb.calls(r'::calculate_entry_hmac$')
+    calc = [c for c in vb.calls() if c.callee == MACFN]
     okv = False
     for cs in eq:
         a = vb.expr(cs.args[0]).show() + ' ' + vb.expr(cs.args[1]).show()
-        if 'calculate_entry_hmac' in a and '.hmac' in a:
+        if MACFN in a and '.hmac' in a:
             okv = True
+    # the comparison may sit in a closure applied to the MAC routine's result (`mac(..).is_ok_and(|m| m == entry.hmac)`)
+    if not okv and calc:
+        for cid in prog.family(vb.id):
+            cb_ = prog.bodies[cid]
+            if cb_.id == vb.id:
+                continue
+            for cs in cb_.calls(r'PartialEq.*>::eq$|ConstantTimeEq>::ct_eq$'):
+                a = cb_.expr(cs.args[0]).show() + ' ' + cb_.expr(cs.args[1]).show()
+                if '.hmac' in a or 'hmac' in a:
+                    # the closure must be applied to the MAC routine's output
+                    for c2 in vb.calls(r'Result::<.*>::(is_ok_and|map|map_or|and_then)$|Option::<.*>::(is_some_and|map)$'):
+                        if vb.expr(c2.args[0]).mentions_call(re.escape(MACFN) + '$') is not None:
+                            okv = True
     # every `true`-capable return flows from that comparison
     rets = [F.Expr.of_rvalue(vb, d[3]['r'], 20) if d[0] == 's' else None for d in vb.defs().get(0, [])]
     const_true = any(r is not None and r.k == 'const' and r.b is True for r in rets)
@@ -143,7 +160,7 @@ def run(ctx):
                        'the snapshot is installed %s the equal edge of the checksum comparison' % ('only on' if okc else 'WITHOUT'), entry=b.root)
 
     # ------------------------------------------------------------------ 2. cover + 3. framing
-    hb = prog.body(MGRT + '::calculate_entry_hmac')
+    hb = prog.body(MACFN)
     fields = prog.adt_fields(ENTRY)
     ups = hb.calls(r'Mac>::update$|Mac::update$|Update>::update$|::update$')
     order = L.rpo(hb)
@@ -164,6 +181,14 @@ def run(ctx):
     # the key comes from the manager's key field
     ks = hb.calls(r'Mac>::new_from_slice$|Mac::new_from_slice$|KeyInit')
     okk = any('hmac_key' in hb.expr(c.args[0]).show() for c in ks)
+    if not okk:
+        # keyed through a parameter: every caller hands it the manager's key field
+        for c in ks:
+            st_ = hb.expr(c.args[0]).strip()
+            if st_.k == 'param' and isinstance(st_.a, int):
+                idx_ = st_.a - 1
+                callers = [(prog.bodies[cid], cc) for cid in prog.callers_of(MACFN) for cc in prog.bodies[cid].calls() if cc.callee == MACFN]
+                okk = bool(callers) and all(idx_ < len(cc.args) and 'hmac_key' in cb_.expr(cc.args[idx_]).show() for cb_, cc in callers)
     ctx.ob('COVER', 'mac-keyed', okk, hb.where(), 'the MAC is keyed with self.hmac_key' if okk else 'MAC key does not come from self.hmac_key')
 
     def classify(u):
@@ -355,7 +380,7 @@ def run(ctx):
             if c.kind == 'disc' and c.variant_is(1) and c.expr.k == 'call' and re.search(r'read_exact$|postcard::from_bytes$', c.expr.a):
                 # the first read_exact (size prefix) ends the loop; only in-loop data reads count
                 fails.append((nnode, c))
-            if c.kind == 'bool' and not c.truth and c.expr.k == 'call' and c.expr.a.endswith('::verify_wal_entry'):
+            if c.kind == 'bool' and not c.truth and c.expr.k == 'call' and c.expr.a == VERFN:
                 fails.append((nnode, c))
         rets = b.return_blocks()
         for nnode, c in fails:
